@@ -15,12 +15,12 @@ import (
 type FaultKind int
 
 const (
-	FaultNone      FaultKind = iota
-	FaultError               // reply with an ErrorResponse; nothing is executed; an open transaction becomes aborted
-	FaultDrop                // close this connection before executing (its open write set is discarded)
-	FaultDropAfter           // execute (a COMMIT takes effect), then close the connection without replying
-	FaultCrash               // close ALL connections before executing (process death / database restart)
-	FaultCrashAfter          // execute, then close all connections without replying
+	FaultNone       FaultKind = iota
+	FaultError                // reply with an ErrorResponse; nothing is executed; an open transaction becomes aborted
+	FaultDrop                 // close this connection before executing (its open write set is discarded)
+	FaultDropAfter            // execute (a COMMIT takes effect), then close the connection without replying
+	FaultCrash                // close ALL connections before executing (process death / database restart)
+	FaultCrashAfter           // execute, then close all connections without replying
 )
 
 func (k FaultKind) String() string {
